@@ -83,6 +83,16 @@ pub fn run(seed: u64, tier: &str, out: &mut Out) {
         let mut just_sampled = false;   // a sample was recorded at this very instant and nothing happened since
         // twin: a fresh bar created at the last reset_eta, fed the same `update`s shifted by the position then
         let mut twin: Option<(ProgressBar, u64)> = None;
+        // a quarter of the histories start far out in the u64 range (positions that f64 cannot tell apart):
+        // jump there and forget the jump, then proceed as usual
+        if rng.chance(1, 4) {
+            let base = *rng.pick(&[1u64 << 53, (1 << 56) + 1, (1 << 60) + 7, (1 << 63) + 12_345, u64::MAX - 1_000_000_000_000_000]);
+            if len.map_or(true, |l| l >= base) || kind != 0 {
+                pos = base; case += &format!(" ; upd {pos}"); pb.update(move |s| s.set_pos(base));
+                case += " ; reseteta"; pb.reset_eta();
+                points = vec![(now, pos, pos)];
+            }
+        }
         let k = rng.range(2, 60);
         for _ in 0..k {
             let choice = rng.below(20);
